@@ -289,15 +289,15 @@ def directed(ctx, scripts, tag, cfg="default"):
 
 def run(ctx):
     import solvercheck as sc
-    directed(ctx, dl_graph_scripts(ctx.rng, 60 if ctx.quick else 1500), "dl-graph")
-    directed(ctx, dl_detour_scripts(ctx.rng, 240 if ctx.quick else 5000), "dl-detour")
-    directed(ctx, lattice_scripts(ctx.rng, 80 if ctx.quick else 2000), "lattice")
-    bu = bool_uf_scripts(ctx.rng, 120 if ctx.quick else 3000)
+    directed(ctx, dl_graph_scripts(ctx.rng, 60 if ctx.quick else 480), "dl-graph")
+    directed(ctx, dl_detour_scripts(ctx.rng, 240 if ctx.quick else 1900), "dl-detour")
+    directed(ctx, lattice_scripts(ctx.rng, 80 if ctx.quick else 640), "lattice")
+    bu = bool_uf_scripts(ctx.rng, 120 if ctx.quick else 960)
     directed(ctx, bu, "bool-uf")
     directed(ctx, [(t, lg) for t, lg in bu if "(push" not in t and t.count("(check-sat)") == 1], "bool-uf", cfg="non-incremental")
-    cnf_tie(ctx, 90 if ctx.quick else 2500)
+    cnf_tie(ctx, 90 if ctx.quick else 720)
     answercheck.run_corpus(ctx, "C02", judge_sat=True, judge_unsat=False)
-    for text, logic, c in dl_boundary_scripts(ctx.rng, 40 if ctx.quick else 600):
+    for text, logic, c in dl_boundary_scripts(ctx.rng, 40 if ctx.quick else 320):
         rc, res, out, err = sc.run_aligned(text, timeout=10)
         ans = answercheck.answers_of(text, res, out) if rc in (0, 1) else None
         if not ans:
@@ -312,8 +312,8 @@ def run(ctx):
                 ctx.violation("wrong-sat:%s:%s" % (v, answercheck.signature_tail(logic, "default", A)),
                               "answered sat for difference constraints that are unsatisfiable by construction (cycle of weight -1); own model rejected by the verified evaluator (%s)" % detail,
                               dict(script=text, constant=str(c)))
-    answercheck.sweep(ctx, "C02", 50 if ctx.quick else 1500, 2, judge_sat=True, judge_unsat=False,
+    answercheck.sweep(ctx, "C02", 50 if ctx.quick else 400, 2, judge_sat=True, judge_unsat=False,
                       gen_kwargs=dict(p_incremental=0.35, p_big=0.0, p_special=0.6, stream=1), logics=["QF_UF", "QF_UF", "QF_UF", "QF_UFLIA", "QF_UFLRA"])
-    answercheck.sweep(ctx, "C02", 90 if ctx.quick else 2500, 3, judge_sat=True, judge_unsat=False,
+    answercheck.sweep(ctx, "C02", 90 if ctx.quick else 720, 3, judge_sat=True, judge_unsat=False,
                       gen_kwargs=dict(p_incremental=0.35, p_big=0.45),
                       logics=["QF_LIA", "QF_LIA", "QF_IDL", "QF_IDL", "QF_RDL", "QF_UFLIA", "QF_UFLRA", "QF_LRA", "QF_UF", "QF_BOOL"])
